@@ -213,6 +213,11 @@ def base_worlds(tier, seed):
     ws.append(dict(refs=[refs[1], refs[0], refs[2]],
                    queries=[e2e.worlds.as_map(9, qb), e2e.worlds.as_map(4, qa), e2e.worlds.as_map(17, pool[1][1]), e2e.worlds.as_map(30, [100.0, 20000.0])],
                    desc=['two parts far apart on one reference', 'two joinable parts', 'plain', 'unalignable']))
+    # two molecules with consecutive ids that both end without a record (two labels each), between alignable ones
+    ws.append(dict(refs=[refs[1], refs[0], refs[2]],
+                   queries=[e2e.worlds.as_map(4, pool[3][1]), e2e.worlds.as_map(9, [100.0, 20000.0]), e2e.worlds.as_map(10, [0.0, 31000.0]),
+                            e2e.worlds.as_map(17, pool[1][1])],
+                   desc=['plain', 'unalignable (two labels)', 'unalignable (two labels), next id', 'plain']))
     # two DIFFERENT molecules with the same number of labels and the same distance from first to last label (windows of the
     # lattice reference, whose spans are multiples of 1400 bp): anything that recognises a molecule by a summary of it confuses them
     lat = refs[1][2]
@@ -240,6 +245,7 @@ class Variants(core.Layer):
 
     def __init__(self, tier, seed):
         self.worlds = base_worlds(tier, seed)
+        self.n_general = len(self.worlds) - 3      # the last three base worlds are purpose-built (join order, equal-span pair, adjacent pair-less)
         self.variants = variants()
         self.bounds = dict(base_worlds=len(self.worlds), variants_per_world=len(self.variants), modes=list(MODES),
                            descriptions=[w['desc'] for w in self.worlds][:6])
@@ -254,8 +260,11 @@ class Variants(core.Layer):
     def run_block(self, b, acc):
         wi = b // self.nchunks
         c = b % self.nchunks
+        special = wi >= self.n_general
         for v in self.variants[c * self.CHUNK:(c + 1) * self.CHUNK]:
-            for mode in MODES:
+            if special and v[0] == 'subset-order' and len(v[1]) >= 3 and v[1] != sorted(v[1]) and v[1] != sorted(v[1], reverse=True):
+                continue        # purpose-built worlds: subsets in ascending and descending order only
+            for mode in (MODES if not special else ('joined', 'best')):
                 acc.seq += 1
                 check_case(wi, self.worlds[wi], v, mode, acc)
 
